@@ -194,8 +194,8 @@ ASPECTS = {
     "C03": "after the store: update_deps, every value watcher in precedence order with event(old, new), flush iff not batching",
     "C08": "relink(ref) iff a reference was assigned; relink(None) iff a plain value overrides an existing link (not for the sync's own write)",
     "C10": "a plain value that overrides an existing link ends it -- relink(None) is what cancels the pending asynchronous evaluation -- and a new reference replaces the old one (not for the sync's own write)",
-    "C12": "class route writes the class default only, instance routes the instance store only",
-    "C14": "readonly always raises TypeError; constant on an initialized instance raises unless the identical object is assigned",
+    "C12": "class route writes the class default only, instance routes the instance store only -- and always record the value for the instance, also when it is the object the class default currently is",
+    "C14": "readonly always raises TypeError; constant on an initialized instance raises unless the identical object is assigned; a refused assignment neither stores nor installs a link (whose next update would rebind the constant)",
 }
 
 
@@ -212,10 +212,16 @@ def classify(c, got, want):
         effects = [t for t in gtrace if t != "validate"]
         if gexc and (effects or gstore):
             out.add("C02")
+            if (c["constant"] or c["readonly"]) and (gstore or any(t.startswith("relink") for t in effects)):
+                # the refused assignment still stored, or installed a link whose next update rebinds the constant
+                out.add("C14")
     if gstore != wstore:
         out.add("C12" if (gstore and wstore) else ("C14" if c["constant"] or c["readonly"] else "C01"))
         if gstore and "validate" not in gtrace:
             out.add("C01")
+        if wstore == "values" and gstore is None and not gexc and not wexc:
+            # nothing recorded for the instance: it goes on following the class default it was explicitly given
+            out.add("C12")
     grel = [t for t in gtrace if t.startswith("relink")]
     wrel = [t for t in wtrace if t.startswith("relink")]
     if grel != wrel:
